@@ -21,7 +21,9 @@ Definition wobs (ret : list val) (s : writer) : val :=
 (* one reader op: None = malformed op *)
 Definition reader_step (op : val) (s : reader) : option (val * reader) :=
   match op with
-  | VL [VZ 1; VZ n] => let '(d, e, s') := rd_read n s in Some (robs [VB d; VZ e] s', s')
+  | VL [VZ 1; VZ n] =>
+    if n <? 0 then None   (* make([]byte, n) with n < 0 does not exist *)
+    else let '(d, e, s') := rd_read n s in Some (robs [VB d; VZ e] s', s')
   | VL [VZ 2] => let '(c, e, s') := rd_byte s in Some (robs [VZ c; VZ e] s', s')
   | VL [VZ 3] => let '(e, s') := rd_unread s in Some (robs [VZ e] s', s')
   | VL [VZ 4; VZ delim] => let '(d, e, s') := rd_slice delim s in Some (robs [VB d; VZ e] s', s')
